@@ -394,6 +394,67 @@ def run(ctx, prog, res):
         r3.ok({"type": short(tid), "printer_paths": st["paths"], "paths_reached_by_a_parseable_shape": st["covered"], "paths_only_reached_by_unparseable_by_construction_shapes": len([1 for _, w in st["uncovered"] if w.startswith("only")]),
                "paths_with_contradictory_integer_conditions": len([1 for _, w in st["uncovered"] if w == "infeasible"]), "paths_only_satisfiable_outside_the_field_domain": len([1 for _, w in st["uncovered"] if w == "outside domain"]),
                "values": st["models"], "texts_matched": checked, "grammar_rules": rules or "(checked inside its parents)", "shapes_excluded_as_infeasible": st["infeasible_shape"]})
+    # level B, adjacency: what a printed rule can end with x what the next printed rule can begin with x every
+    # separator the expression printer uses; the two rules must come back as two rule_sequence tokens
+    RS_T = RULES + "RuleSequence"
+    if RS_T in mc.paths and RS_T in M._models:
+        def leaves_of(tree):
+            out = []
+            for n in tree:
+                if n[3]:
+                    out += leaves_of(n[3])
+                else:
+                    out.append(n)
+            return out
+        heads, tails = {}, {}
+        seen_txt = set()
+        for _, m_ in M.models(RS_T):
+            try:
+                txt = M.render(RS_T, m_)
+            except printmodel.ModelError:
+                continue
+            if not txt or txt in seen_txt:
+                continue
+            seen_txt.add(txt)
+            tree = g.parse_tree("rule_sequence", txt)
+            if tree is None:
+                continue
+            lv = [n for n in leaves_of(tree) if n[2] > n[1]]  # tokens that matched nothing say nothing about adjacency
+            if not lv:
+                continue
+            def cls(n):
+                return (n[0], "".join("0" if c.isdigit() else c for c in txt[n[1]:n[2]])[:4] if n[0] in ("daynum", "year", "hour", "extended_hour", "minute", "weeknum", "positive_number", "nth") else "")
+            heads.setdefault(cls(lv[0]), m_)
+            tails.setdefault(cls(lv[-1]), m_)
+        E_T = RULES + "OpeningHoursExpression"
+        ops = M.variants(RULES + "RuleOperator") if (RULES + "RuleOperator") in prog.adts else []
+        n_adj, bad_adj = 0, []
+        for t_m in tails.values():
+            for h_m in heads.values():
+                for op_ in ops:
+                    h2 = printmodel.adt(h_m[1], h_m[2], tuple((n_, printmodel.adt(RULES + "RuleOperator", op_, ()) if n_ == "operator" else x_) for n_, x_ in h_m[3]))
+                    val = printmodel.adt(E_T, "OpeningHoursExpression", (("rules", ("list", (t_m, h2))),))
+                    try:
+                        spans = []
+                        sent = M.render(E_T, val, spans)
+                    except printmodel.ModelError as e:
+                        bad_adj.append(("<no text>", str(e)))
+                        continue
+                    n_adj += 1
+                    holes = [(a, b) for (a, b, hty, hv) in spans if isinstance(hv, tuple) and hv and hv[0] == "adt" and hv[1] == RS_T]
+                    tree = g.parse_tree("input_opening_hours", sent)
+                    ok_ = False
+                    rs = []
+                    if tree is not None and len(holes) == 2:
+                        rs = [n for n in tree_nodes(tree) if n[0] == "rule_sequence"]
+                        # each printed rule inside a rule_sequence token of its own
+                        ok_ = len(rs) == 2 and rs[0][1] <= holes[0][0] and holes[0][1] <= rs[0][2] and rs[1][1] <= holes[1][0] and holes[1][1] <= rs[1][2]
+                    if not ok_:
+                        bad_adj.append((sent, "rejected" if tree is None else "read back as %d rule(s): %s" % (len(rs), [sent[n[1]:n[2]] for n in rs][:3])))
+        for sent, why in bad_adj[:6]:
+            r3.fail("C06.R3:OpeningHoursExpression:adjacent:%s" % ("rejected" if why == "rejected" else "merged"), "two rules printed one after the other, %r, are %s" % (sent, why), lib.where_of(mc.fns[E_T]) if E_T in mc.fns else None, {"count": len(bad_adj)})
+        seps = ops
+        r3.ok({"adjacent_rules": "endings x beginnings x separators", "endings": len(tails), "beginnings": len(heads), "separators": seps, "sentences_read_back_as_the_same_two_rules": n_adj - len(bad_adj), "of": n_adj})
     r3.ok({"strings_matched_in_full": total_strings, "feasibility_rows_hits": mc.row_hits, "context_rule_hits": {"%s.%s" % (short(k[0]), k[1]): v for k, v in mc.field_rule_hits.items()},
            "grammar_child_sequences_inspected": mc.row_stats, "symbolic_states": mc.sp.states, "domains": mc.dom.notes, "printer_panic_paths": sorted({w for _, w in mc.sp.panics}), "seconds": round(time.time() - t0, 1)})
     r3.floor(20)
